@@ -33,7 +33,8 @@ ASSUMPTIONS = [
 
 U = {'s': 10 ** 9, 'ms': 10 ** 6, 'us': 10 ** 3, 'ns': 1}
 UNITS = ('s', 'ms', 'us', 'ns')
-PERIODS = [(1, 's'), (2, 's'), (500, 'ms'), (250, 'ms'), (100, 'ms'), (10, 'ms'), (1, 'ms'), (500, 'us'), (20, 'us'), (100, 'ns'), (5, 's'), (2500, 'us'), (1500, 'ms')]
+PERIODS = [(1, 's'), (2, 's'), (500, 'ms'), (250, 'ms'), (100, 'ms'), (10, 'ms'), (1, 'ms'), (500, 'us'), (20, 'us'), (100, 'ns'), (5, 's'), (2500, 'us'), (1500, 'ms'),
+           (67, 'ms'), (535, 'ms'), (268, 'us')]       # 0.067 * 1e9 is 67000000.00000001 in floating point
 
 PROF_OFF = Profile(un_temp=F.UN_PAST + ('eventually', 'always'), tbin=('since', 'until', 'unless'), max_depth=3, max_bound=5)
 PROF_PAST = Profile(un_temp=F.UN_PAST, bin_temp=F.BIN_PAST, tun=F.TUN_PAST, tbin=F.TBIN_PAST, max_depth=3, max_bound=5)
@@ -154,7 +155,8 @@ def cases(draw, tier, mode, wide=False):
         du = draw(st.sampled_from(UNITS))
         # the period written in another unit
         # ... also as a non-integer number of a larger unit when that number is an exact float (0.5 s, 2.5 ms)
-        alts = [(t, u) for (t, u) in spellings(1, pv * U[pu], None) if '.' not in t or Fraction(float(t)) * U[u] == pv * U[pu]]
+        # (also decimals without exact binary representation: 0.01 s, 0.1 ms - the number the caller passes is the decimal it wrote)
+        alts = [(t, u) for (t, u) in spellings(1, pv * U[pu], None) if len(t) <= 8]
         pt, pun = draw(st.sampled_from(alts))
         cfgs.append({'unit': du, 'period': [float(pt) if '.' in pt else int(pt), pun], 'choices': draw(st.lists(st.integers(0, 11), min_size=12, max_size=12)),
                      'uniform': draw(st.sampled_from([None, None, 's', 'ms', 'us', 'ns'])),
